@@ -48,6 +48,14 @@ type vfStep struct {
 	state   int    // index of the store state after this step
 }
 
+// vfValStr prints a value; the 1 MiB blobs of the huge-prefix class are abbreviated.
+func vfValStr(v string) string {
+	if len(v) > 64 {
+		return fmt.Sprintf("<%q... %d bytes>", v[:10], len(v))
+	}
+	return fmt.Sprintf("%q", v)
+}
+
 func (s vfStep) String() string {
 	switch s.Op {
 	case "write":
@@ -62,7 +70,7 @@ func (s vfStep) String() string {
 			if kv.Val == nil {
 				ps = append(ps, "del "+kv.Key)
 			} else {
-				ps = append(ps, fmt.Sprintf("put %s=%q", kv.Key, *kv.Val))
+				ps = append(ps, fmt.Sprintf("put %s=%s", kv.Key, vfValStr(*kv.Val)))
 			}
 		}
 		r := strings.Join(ps, "; ")
@@ -112,6 +120,10 @@ type vfHistory struct {
 	RenameTail         bool
 	Wide               int // number of filler keys under the watched prefix (0 = narrow)
 	WideBurst          int
+	Huge               int    // huge-prefix class: number of 1 MiB blobs put under the watched prefix (0 = none)
+	HugeMode           string // before | after | split (relative to the Sync* calls)
+	HugeShrinks        bool   // the history ends with a delete of the blobs (content back below the limit)
+	noDelPrefix        bool
 	k0AtFault          bool
 	states             []map[string]string
 	nSameVal           int
@@ -140,6 +152,9 @@ func vfGenWrites(rt *rapid.T, h *vfHistory, cur map[string]string, n int, label 
 			h.states = append(h.states, cur)
 			st.state = len(h.states) - 1
 			h.Steps = append(h.Steps, st)
+		}
+		if kind == "delprefix" && h.noDelPrefix {
+			kind = "put"
 		}
 		switch kind {
 		case "put":
@@ -228,11 +243,74 @@ func vfGenWrites(rt *rapid.T, h *vfHistory, cur map[string]string, n int, label 
 	return cur
 }
 
+// huge-prefix class: the content under the watched prefix grows beyond 10 MiB (the largest message
+// a member's etcd client sends, cluster.max-call-send-msg-size, and the largest request the
+// embedded server accepts) although every single write is far below that limit: vfHugeBlob-sized
+// values under keys /w/b00, /w/b01, ...
+const vfHugeBlob = 1 << 20
+
+// convergence bound of the huge-prefix cases
+const vfHugeBound = 20 * time.Second
+
+func vfHugeKey(i int) string { return fmt.Sprintf("/w/b%02d", i) }
+
+var vfGenNo int
+
 func vfGenHistory(rt *rapid.T) *vfHistory {
 	h := &vfHistory{}
 	h.PullMs = rapid.SampledFrom([]int{100, 150, 200, 300}).Draw(rt, "pullMs")
 	for i := range h.LagMs {
 		h.LagMs[i] = rapid.SampledFrom([]int{0, 0, 0, 15, 40, 100}).Draw(rt, "lagMs")
+	}
+	// A fixed share of the cases (cases 2, 12, 22, ... of a process: a counter, not a draw, because a
+	// case costs seconds; when a fail file is replayed the drawn flag takes over) is a huge-prefix
+	// case: a few ordinary writes, then 11-13 blobs of 1 MiB under the watched prefix - all before
+	// Sync* is called ("first delivers the current content"), all after it, or split so that what
+	// exists at Sync* is still below 10 MiB - then a few ordinary writes and silence. No fault, the
+	// syncing member has the 10 s request timeout.
+	vfGenNo++
+	if rapid.Bool().Draw(rt, "hugeOnReplay") && vfGenNo == 1 || vfGenNo%10 == 2 {
+		h.Fault = "none"
+		h.Huge = rapid.IntRange(11, 13).Draw(rt, "hugeBlobs")
+		h.HugeMode = rapid.SampledFrom([]string{"after", "before", "split"}).Draw(rt, "hugeMode")
+		cur := map[string]string{}
+		h.states = []map[string]string{cur}
+		cur = vfGenWrites(rt, h, cur, rapid.IntRange(0, 3).Draw(rt, "nPre"), "pre.")
+		nBefore := 0
+		switch h.HugeMode {
+		case "before":
+			nBefore = h.Huge
+		case "split":
+			nBefore = rapid.IntRange(1, 9).Draw(rt, "hugeBefore")
+		}
+		blobs := func(from, to int) {
+			for i := from; i < to; i++ {
+				v := fmt.Sprintf("blob-%02d-", i) + strings.Repeat("x", vfHugeBlob)
+				cur = vfCopyState(cur)
+				cur[vfHugeKey(i)] = v
+				h.states = append(h.states, cur)
+				h.Steps = append(h.Steps, vfStep{Op: "write", KVs: []vfKV{{vfHugeKey(i), &v}}, state: len(h.states) - 1})
+			}
+		}
+		blobs(0, nBefore)
+		h.Steps = append(h.Steps, vfStep{Op: "sync"})
+		blobs(nBefore, h.Huge)
+		// the tail keeps the blobs, except in a quarter of the cases, which end with a delete of
+		// everything under /w/ (the content is small again: the syncer has to deliver that too)
+		h.noDelPrefix = true
+		cur = vfGenWrites(rt, h, cur, rapid.IntRange(0, 4).Draw(rt, "nA"), "a.")
+		if rapid.IntRange(0, 3).Draw(rt, "hugeShrinks") == 0 {
+			h.HugeShrinks = true
+			cur = vfCopyState(cur)
+			for k := range cur {
+				if strings.HasPrefix(k, "/w/") {
+					delete(cur, k)
+				}
+			}
+			h.states = append(h.states, cur)
+			h.Steps = append(h.Steps, vfStep{Op: "write", DelPfx: "/w/", state: len(h.states) - 1})
+		}
+		return h
 	}
 	// (rapid favours the front of the list: the fault kinds come first so that they stay well populated)
 	h.Fault = rapid.SampledFrom([]string{"cutcompact", "restart", "cut", "none", "none", "none", "none", "none"}).Draw(rt, "fault")
@@ -496,7 +574,7 @@ func vfMapStr(m map[string]string) string {
 			fillers++ // the filler keys of a wide prefix never change: only counted
 			continue
 		}
-		ps = append(ps, fmt.Sprintf("%s=%q", k, m[k]))
+		ps = append(ps, fmt.Sprintf("%s=%s", k, vfValStr(m[k])))
 	}
 	if fillers > 0 {
 		ps = append(ps, fmt.Sprintf("+%d filler keys", fillers))
@@ -624,15 +702,17 @@ func TestVerifC19Syncer(t *testing.T) {
 		}
 	}
 
-	var maxConv time.Duration
+	var maxConv, maxConvHuge, costHuge time.Duration
 	defer func() {
-		vf.Note(fmt.Sprintf("largest time to convergence seen in a process: %v (bound: max(25 x pullInterval, 10s))", maxConv.Round(10*time.Millisecond)))
+		vf.Note(fmt.Sprintf("largest time to convergence seen in a process: %v (bound: max(25 x pullInterval, 10s)); in huge-prefix cases: %v (bound %v); wall time spent in huge-prefix cases: %v",
+			maxConv.Round(10*time.Millisecond), maxConvHuge.Round(10*time.Millisecond), vfHugeBound, costHuge.Round(10*time.Millisecond)))
 	}()
 	// once the bed is broken (server did not come back) every further case is inconclusive at once
 	rapid.Check(t, func(rt *rapid.T) {
 		if *broken != "" {
 			rt.Fatalf("VF-INCONCLUSIVE test bed broken earlier: %s", *broken)
 		}
+		tCase := time.Now()
 		h := vfGenHistory(rt)
 		m := mLong
 		if h.ShortTimeout {
@@ -805,6 +885,9 @@ func TestVerifC19Syncer(t *testing.T) {
 		if bound < 10*time.Second {
 			bound = 10 * time.Second
 		}
+		if h.Huge > 0 && bound < vfHugeBound {
+			bound = vfHugeBound // every pull moves > 10 MiB through the relay
+		}
 		t0 := time.Now()
 		converged := func() (bool, int) {
 			for i, c := range cons {
@@ -824,8 +907,11 @@ func TestVerifC19Syncer(t *testing.T) {
 			time.Sleep(5 * time.Millisecond)
 		}
 		convTime := time.Since(t0)
-		if okConv && convTime > maxConv {
+		if okConv && convTime > maxConv && h.Huge == 0 {
 			maxConv = convTime
+		}
+		if okConv && convTime > maxConvHuge && h.Huge > 0 {
+			maxConvHuge = convTime
 		}
 		if okConv {
 			// quiet window: nothing may follow the final snapshot
@@ -887,6 +973,24 @@ func TestVerifC19Syncer(t *testing.T) {
 		if h.Wide > 0 {
 			vf.Class("wide-prefix>128-keys-with-first/middle/last-key-transactions")
 		}
+		if h.Huge > 0 {
+			size := func(st map[string]string) (n int) {
+				for k, v := range vfRestrict(st, base, true) {
+					n += len(k) + len(v)
+				}
+				return n
+			}
+			vf.Class("huge-prefix:blobs-" + h.HugeMode + "-Sync*")
+			if size(h.states[syncAcked]) > 10<<20 {
+				vf.Class("huge-prefix:content-at-Sync*>10MiB")
+			}
+			if size(final) > 10<<20 {
+				vf.Class("huge-prefix:final-content>10MiB")
+			} else {
+				vf.Class("huge-prefix:final-content-back-below-10MiB")
+			}
+			costHuge += time.Since(tCase)
+		}
 		if h.TailBurst > 0 {
 			for i := range cons {
 				if h.LagMs[i] >= 40 {
@@ -933,7 +1037,7 @@ func TestVerifC19Syncer(t *testing.T) {
 		case "cut", "cutcompact":
 			faultNT = watchedChangesInCut > 0 || (writesBeforeFault > 0 && writesAfterFault > 0)
 		}
-		nontrivial := (writesAfterSync >= 3 && (h.nSameVal > 0 || h.nRecreate > 0)) || faultNT || h.Wide > 0
+		nontrivial := (writesAfterSync >= 3 && (h.nSameVal > 0 || h.nRecreate > 0)) || faultNT || h.Wide > 0 || h.Huge > 0
 		vf.Case(nontrivial, h.String(), func() interface{} {
 			s := map[string]interface{}{"history": strings.Split(strings.TrimSpace(h.String()), "\n"), "final": vfMapStr(vfRestrict(final, base, true))}
 			for i, c := range cons {
@@ -1000,7 +1104,11 @@ func TestVerifC19Syncer(t *testing.T) {
 			}
 		}
 		if !okConv {
-			vf.Violation(rt, fmt.Sprintf("no-convergence adapter=%s fault=%s", vfViews[lagging].name, h.Fault),
+			key := fmt.Sprintf("no-convergence adapter=%s fault=%s", vfViews[lagging].name, h.Fault)
+			if h.Huge > 0 {
+				key += " class=huge-prefix"
+			}
+			vf.Violation(rt, key,
 				"%v after the last write the last delivered snapshot is not the final content %s\n%s",
 				convTime.Round(time.Millisecond), vfMapStr(vfRestrict(final, base, vfViews[lagging].prefix)), dump(lagging))
 			return
